@@ -47,7 +47,7 @@ func verifC25Digits(v int64) string {
 // timestamp is still inside the acceptance window (cache never over capacity).
 //
 //verif:stub crypto/hmac.New = verifC25HmacNew
-//verif:bound two presentations of the same proof; skew arbitrary in [1,86400] s; proof timestamp any 10-digit second count; the two clock instants arbitrary (second and nanosecond) and non-decreasing, one instant per presentation (window check and cache read the same instant); HMAC replaced by a constant tag (MAC binding outside this harness); capacity default so no eviction by count
+//verif:bound two presentations of the same proof (the second byte-identical or with the MAC's final base64url character re-spelled); skew arbitrary in [1,86400] s; proof timestamp any 10-digit second count; the two clock instants arbitrary (second and nanosecond) and non-decreasing, one instant per presentation (window check and cache read the same instant); HMAC replaced by a constant tag (MAC binding outside this harness); capacity default so no eviction by count
 func verifH_C25_replay_window() {
 	skew := verifNondetInt("skew")
 	verifAssume(skew >= 1 && skew <= 86400)
@@ -82,8 +82,17 @@ func verifH_C25_replay_window() {
 	in1 := s1-ts <= int64(skew) && ts-s1 <= int64(skew)
 	verifAssert((e1 == nil) == in1, "first presentation accepted exactly inside the two-sided skew window")
 	verifC25Sec, verifC25Nsec = s2, n2
-	_, e2 := auth(r)
+	// the replay may re-spell the final base64url character of the MAC: 43
+	// characters carry 258 bits, the decoder ignores the two spare ones, so
+	// 'A','B','C','D' all decode to the same 32 MAC bytes ('E' does not)
+	last := []string{"A", "B", "C", "D", "E"}[verifChoice("replay.mac_last_char", 5)]
+	r2 := &http.Request{Header: http.Header{}}
+	r2.Header.Set(ProofHeader, token[:len(token)-1]+last)
+	_, e2 := auth(r2)
 	verifReach("both-presented")
+	if last == "E" {
+		verifAssert(e2 != nil, "a MAC with a flipped data bit never verifies")
+	}
 	if e1 == nil {
 		verifReach("first-accepted")
 		verifAssert(e2 != nil, "a proof accepted once is refused on a later presentation while its timestamp is still acceptable")
